@@ -31,6 +31,14 @@ CLAIMED["C05"] = {
     "technique": "contracts on the real templates; per-path VCs by symbolic-scalar execution; forward-mode differentiation + polynomial normal form; interval bound on small-angle paths",
 }
 
+CLAIMED["C06"] = {
+    "text": "Proof over the reals that rjac/ljac are the right/left trivialised differentials of exp (hence the series), ljac(t)=rjac(-t), "
+            "rjac*rjacinv = I = ljac*ljacinv, adj(X) is conjugation on the algebra, Adj(exp t) rjac = ljac, Adj is a homomorphism and "
+            "smallAdj is the commutator, on all generic paths; interval bound 1e-6*scale on small-angle paths.",
+    "note": _REAL + "A-TRIG/A-SQRT/A-TAYLOR, L-SERIES, A-EIGEN-INV (LU fallback stub for N>4). Not decided: floating-point accuracy near the switch-over.",
+    "technique": "contracts on the real templates; per-path VCs by symbolic-scalar execution; forward-mode differentiation + polynomial normal form; interval bound on small-angle paths",
+}
+
 NOT_APPLICABLE = {
     "C14": "quantifies over thread schedules; contract verification of one sequential call cannot express or decide data-race freedom (no thread model in any installed deductive back end for this C++ code) - see DESIGN.md section 5",
     "C19": "the oracle is the compiler's accept/reject verdict over a matrix of client programs, not a pre/postcondition of any function - see DESIGN.md section 5",
